@@ -268,6 +268,24 @@ CLAIMED = {
             'Seeded change C43-1 (wrong 2^52 threshold of a large-argument shortcut) is a value fact and '
             'is not detected.',
             'DESIGN.md section 4 (C43)'),
+    'C38': ('X-context-isolation',
+            'static analysis: sharing/escape rules over the context constructors (fresh precision cell and '
+            'number classes wired to the instance), discovery of every in-place-mutated context attribute '
+            'with a per-instance-creation rule, statement whitelist on clone, scope analysis for the '
+            'pickling globals and global instances, allocation-site rule in the number classes, and a '
+            'snapshot/try/finally pairing rule for code run on another context (using Engine A summaries)',
+            'Isolation fails exactly when two contexts can reach one mutable object or when code bound to '
+            'one context reads or writes another.  Decided from the source for all histories: precision '
+            'cell and number classes are per instance and wired to that instance; every container '
+            'attribute mutated anywhere is created fresh per instance (none class-level, none borrowed); '
+            'clone constructs a new instance and copies scalar settings only; library code never reads '
+            'the pickling globals (always mp\'s classes) or the global instances; number-class methods '
+            'allocate from the receiver\'s context; code running on ctx._mp restores that context\'s '
+            'precision in a finally clause; fp precision setters store nothing.  That a clone computes '
+            'the same values as mp is numerical and not decided.',
+            'Module-level / default-argument caches are decided under C33 (D-R3).  Trusts Engine A '
+            'summaries for "leaves the precision changed".',
+            'DESIGN.md section 4 (C38)'),
 }
 
 NA_REASONS = {
